@@ -17,7 +17,7 @@ import (
 
 func init() {
 	register(&Prop{ID: "C01", Run: runC01, MinNontrivial: 500,
-		Rule:        "cases = attack documents built from a genuine IdP-signed response (Response signed / assertions signed / both, 1-3 assertions, plain or encrypted, any supported algorithm, raw or DEFLATE) and attacker content E (admin subject; unsigned, attacker-signed with own cert, attacker-signed with the trusted cert in KeyInfo, attacker-signed without KeyInfo, encrypted to the SP) with same/fresh/root-colliding IDs, by 30 hand-written transformers (siblings, E wraps S in Advice/Extensions/Object/arbitrary, S wraps E, signature transplant, evil Response wrapping the signed one, stripping, double signatures, duplication, lifting, comment injection, prefix rebinding, DOCTYPE/BOM/declaration, message-type confusion, nested/relocated assertions) plus a tree fuzzer (1-4 random cut/graft/ID/URI edits over the pool of signed elements, evil elements and signatures) and a byte mutator; oracle on acceptance: if Response.SignatureValidated the whole Response equals the trusted-signed Response record, otherwise every returned assertion equals an individually trusted-signed assertion record, and RetrieveAssertionInfo's NameID/Values/SessionIndex come from the same record; rejection is always allowed; non-trivial = the document parsed and reached signature processing; distinct by hash of the serialised document; also text-level repeated namespace declarations on one start tag (junk value before/after the real one) and providers obtained as struct copies of a used provider; a wrapper encrypted around a signed assertion (must be rejected); class over-budget: a signed assertion of 470-2500 attribute values next to an unsigned forged sibling; transformers: forged plain assertion reusing the ID of an encrypted one, signed assertion under an inner twin of the root; a third of the cases run on a provider that has just validated the genuine message",
+		Rule:        "cases = attack documents built from a genuine IdP-signed response (Response signed / assertions signed / both, 1-3 assertions, plain or encrypted, any supported algorithm, raw or DEFLATE) and attacker content E (admin subject; unsigned, attacker-signed with own cert, attacker-signed with the trusted cert in KeyInfo, attacker-signed without KeyInfo, encrypted to the SP) with same/fresh/root-colliding IDs, by 30 hand-written transformers (siblings, E wraps S in Advice/Extensions/Object/arbitrary, S wraps E, signature transplant, evil Response wrapping the signed one, stripping, double signatures, duplication, lifting, comment injection, prefix rebinding, DOCTYPE/BOM/declaration, message-type confusion, nested/relocated assertions) plus a tree fuzzer (1-4 random cut/graft/ID/URI edits over the pool of signed elements, evil elements and signatures) and a byte mutator; oracle on acceptance: if Response.SignatureValidated the whole Response equals the trusted-signed Response record, otherwise every returned assertion equals an individually trusted-signed assertion record, and RetrieveAssertionInfo's NameID/Values/SessionIndex come from the same record; rejection is always allowed; non-trivial = the document parsed and reached signature processing; distinct by hash of the serialised document; also text-level repeated namespace declarations on one start tag (junk value before/after the real one) and providers obtained as struct copies of a used provider; a wrapper encrypted around a signed assertion (must be rejected); class over-budget: a signed assertion of 470-2500 attribute values next to an unsigned forged sibling; transformers: forged plain assertion reusing the ID of an encrypted one, signed assertion under an inner twin of the root; a third of the cases run on a provider that has just validated the genuine message; attacker-encrypted content with own-key signatures (inclusive canonicalisation, dangling Reference); AssertionInfo session values must be those of the first accepted assertion",
 		Assumptions: []string{"attack grammar and fuzzers are broad but finite", "the IdP simulator and the verifier share goxmldsig's canonicaliser implementation"}})
 }
 
